@@ -2,5 +2,7 @@
 package all
 
 import (
+	_ "hv/props/c01"
+	_ "hv/props/c04"
 	_ "hv/props/c05"
 )
